@@ -148,6 +148,10 @@ def eq(
 ) -> bool:
     x1, y1, z1 = p1
     x2, y2, z2 = p2
+    # The cross-multiplied comparison is vacuous when a point at infinity is
+    # given as (0, 0, 0) (e.g. the result of doubling Z1 twice).
+    if is_inf(p1) or is_inf(p2):
+        return is_inf(p1) and is_inf(p2)
     return x1 * z2 == x2 * z1 and y1 * z2 == y2 * z1
 
 
